@@ -301,11 +301,18 @@ func scenarios(thorough bool) []vx.Scenario {
 		tokenScenario(2, 4, [][]tCall{{c(1, 4), c(1, 4)}, {c(2, 4), c(2, 4)}, {c(1, 4)}}, true),
 	}
 	if thorough {
+		// the 3-caller outage scenario has ~55 points per execution (monitor threads, tickers):
+		// P=3,T=1 costs 1.25 M executions (13 min); keep it at P=2,T=1 and let the 2-caller one go deeper
+		big := tokenScenario(2, 4, [][]tCall{{c(1, 4), c(1, 4)}, {c(2, 4), c(2, 4)}, {c(1, 4)}}, true)
+		big.SetBound, big.P, big.T = true, 2, 1
+		out[len(out)-1] = big
+		big2 := tokenScenario(5, 10, [][]tCall{{c(1, 10), c(1, 10)}, {c(2, 10), c(2, 10)}, {c(2, 1)}}, true)
+		big2.SetBound, big2.P, big2.T = true, 2, 1
+		out = append(out, big2)
 		out = append(out,
 			periodScenario(2, 2, []int{2, 2, 2}, false),
 			periodScenario(2, 1, []int{2, 1, 1}, true),
 			tokenScenario(10, 3, [][]tCall{{c(1, 3)}, {c(2, 3)}, {c(1, 1)}}, false),
-			tokenScenario(5, 10, [][]tCall{{c(1, 10), c(1, 10)}, {c(2, 10), c(2, 10)}, {c(2, 1)}}, true),
 		)
 	}
 	return out
